@@ -76,6 +76,15 @@ def builder_case(draw, n_max=7, builder_names=BUILDERS, container_names=None, eq
             max(max(r) for r in mat["C"]) * (2 * mat["n"] + 2) <= 32000:
         # the same counts held in 16 bits (count matrices written to disk compactly): same numbers, same model
         mat["dtype"] = "int16"
+    elif mat["dtype"] in ("int32", "int64") and draw(st.integers(0, 7)) == 0 and 0 < max(max(r) for r in mat["C"]) <= 3000:
+        # ... and well-sampled 16-bit counts: every entry fits (the largest lies between 20000 and 32767), the sum of two
+        # of them does not. Builders are invariant under scaling the counts, the reference works in float64.
+        k = 32767 // max(max(r) for r in mat["C"])
+        k = draw(st.integers(max(1, (20000 + max(max(r) for r in mat["C"]) - 1) // max(max(r) for r in mat["C"])), k))
+        mat["C"] = [[v * k for v in row] for row in mat["C"]]
+        mat["dtype"] = "int16"
+        mat["flavour"] = mat["flavour"] + "_x16bit"
+        prior_kinds = ("none",)
     if mat["flavour"] == "real" and draw(st.integers(0, 3)) == 0:
         # weighted / rescaled counts of tiny magnitude (every entry below 1e-8): the same model as for the unscaled counts
         mat["C"] = [[v * 1e-10 for v in row] for row in mat["C"]]
